@@ -30,6 +30,9 @@ var c13Decls = []c13Decl{
 	{"global-function", "", "function gf(p) end", "gf", "gf(1)", false, []string{"function", "gf", "(", "p", ")"}, false},
 	{"member-function", "t = {}\n", "function t.m(p) end", "m", "t.m(1)", false, []string{"function", "m", "(", "p", ")"}, false},
 	{"table-member", "", "t = {k = 1}", "k", "print(t.k)", false, []string{"k", "1"}, false},
+	{"vararg-only-function", "", "function gv(...) end", "gv", "gv(1)", false, []string{"function", "gv", "(", "...", ")"}, false},
+	{"local-function-with-vararg", "", "local function lv(p, ...) end", "lv", "lv(1)", true, []string{"function", "lv", "(", "p", "...", ")"}, false},
+	{"member-vararg-function", "t = {}\n", "function t.mv(...) end", "mv", "t.mv(1)", false, []string{"function", "mv", "(", "...", ")"}, false},
 }
 
 var c13Placements = []string{"none", "trailing", "above-1", "above-2", "above-triple-dash", "above-separated-by-blank", "trailing-multi-name", "above-1-directly-below-a-trailing-comment"}
@@ -301,7 +304,7 @@ func init() {
 	core.Register(&core.Check{
 		ID:        "C13",
 		Technique: "bounded-exhaustive enumeration (declaration forms x comment placements x all comment strings up to a length over an 8-symbol alphabet of ASCII, 2-, 3- and 4-byte characters) on the real server against the documented attachment rule",
-		Rule: "7 declaration forms x 7 comment placements (none, trailing, one line above, two-line block, --- line, block separated by a blank line, trailing on a multi-name local) x every comment text of <=2 (quick) / <=3 (thorough) symbols over {a, space, é, я, 中, 😀, -, *}; hover at the declaration and at a use. " +
+		Rule: "10 declaration forms (functions with a vararg parameter list included) x 7 comment placements (none, trailing, one line above, two-line block, --- line, block separated by a blank line, trailing on a multi-name local) x every comment text of <=2 (quick) / <=3 (thorough) symbols over {a, space, é, я, 中, 😀, -, *}; hover at the declaration and at a use. " +
 			"The label must contain the identifier and what the declaration says (local marker, literal, parameter names in order); the documentation must be the attached comment (trailing, else block directly above; never a block separated by a blank line), byte-identical after the clean-up of leading/trailing dashes, stars and blanks. " +
 			"states = hovers judged; non-trivial = cases whose comment contains non-ASCII characters",
 		Assumptions: []string{"comments that are empty after clean-up, that start with an extra dash, or contain '[' are not judged for documentation", "documentation lines are compared after trimming blanks, dashes and stars at both ends"},
